@@ -303,6 +303,32 @@ def strip_other(r):
     return "other" if r.startswith("other:") else r
 
 
+def container_use(schema, data):
+    """serialising uses of a loaded schema: the container header (fastavro.writer + reader) and json.dumps of the schema
+    without its two top-level marker keys"""
+    import fastavro
+
+    def strip_top(x):
+        if isinstance(x, list):
+            return [strip_top(m) for m in x]
+        if isinstance(x, dict):
+            return {k: v for k, v in x.items() if k not in ("__fastavro_parsed", "__named_schemas")}
+        return x
+    try:
+        fo = io.BytesIO()
+        core.with_timeout(lambda: fastavro.writer(fo, schema, data), 20)
+        back = core.with_timeout(lambda: list(fastavro.reader(io.BytesIO(fo.getvalue()))), 20)
+        w = "ok:" + repr(back)[:400]
+    except Exception as e:
+        w = "raised:" + type(e).__name__ + ":" + str(e)[:60]
+    try:
+        json.dumps(strip_top(schema))
+        dj = "ok"
+    except Exception as e:
+        dj = "raised:" + type(e).__name__ + ":" + str(e)[:60]
+    return (w, dj)
+
+
 def case(g, **kw):
     return dict(top=g["top"], files=g["files"], files_json=json.dumps(g["files"]), deps=g["deps"], **kw)
 
@@ -330,6 +356,10 @@ def run_graph(ctx, g, d, data_rng):
             except Exception:
                 continue
             obs["enc"].append((repr(datum)[:300], encode(loaded, datum), encode(parsed, datum)))
+            obs.setdefault("data", []).append(datum)
+    obs["container"] = []
+    if st == "ok" and st2 == "ok":
+        obs["container"].append(("load_schema", None, container_use(loaded, obs.get("data", [])), container_use(parsed, obs.get("data", []))))
     # ordered loading
     obs["ordered"] = []
     for order in topo_orders(g["deps"], top, rng=data_rng):
@@ -344,6 +374,8 @@ def run_graph(ctx, g, d, data_rng):
             except Exception:
                 pass
         obs["ordered"].append((order, r, encs))
+        if sto == "ok" and st2 == "ok":
+            obs["container"].append(("load_schema_ordered", list(order), container_use(lo, obs.get("data", [])), container_use(parsed, obs.get("data", []))))
     # several loads through ONE repository object (and through the path form), of different top-level types of the
     # same graph, in several orders, and of the same top twice: each result against its own inlined schema
     from fastavro.repository import FlatDictRepository
@@ -428,6 +460,29 @@ def run(ctx):
             {"name": "e2", "type": ["null", "a.E"]}]},
         "X": {"type": "fixed", "name": "X", "size": 3},
         "a.E": {"type": "enum", "name": "E", "namespace": "a", "symbols": ["A", "B"]}}))
+    # the same simple name in the null namespace and in a namespace; a type of that namespace refers to its sibling by the
+    # relative spelling AFTER the null-namespace one has been loaded (document order): it must bind to the sibling
+    for kind_null, kind_ns in [("enum", "enum"), ("fixed", "enum"), ("record", "record"), ("enum", "record")]:
+        def mk(kind, name, ns, tag):
+            base = {"type": kind, "name": name}
+            if ns:
+                base["namespace"] = ns
+            if kind == "enum":
+                base["symbols"] = ["A" + tag, "B" + tag, "C" + tag][:2 if tag == "n" else 3]
+            elif kind == "fixed":
+                base["size"] = 2 if tag == "n" else 5
+            else:
+                base["fields"] = [{"name": "v" + tag, "type": "long" if tag == "n" else "string"}]
+            return base
+        for first in (True, False):
+            fl = [{"name": "s", "type": "Status"}, {"name": "line", "type": "shop.Line"}]
+            graphs.append(dict(top="Order", n=4, deps={"Order": ["Status", "shop.Line"] if first else ["shop.Line", "Status"],
+                                                       "Status": [], "shop.Line": ["shop.Status"], "shop.Status": []}, files={
+                "Order": {"type": "record", "name": "Order", "fields": fl if first else fl[::-1]},
+                "Status": mk(kind_null, "Status", "", "n"),
+                "shop.Line": {"type": "record", "name": "Line", "namespace": "shop", "fields": [
+                    {"name": "status", "type": rng.choice(["Status", ["null", "Status"], {"type": "array", "items": "Status"}])}]},
+                "shop.Status": mk(kind_ns, "Status", "shop", "s")}))
     d = tempfile.mkdtemp(prefix="c19.", dir=ctx.workdir)
     try:
         exprs, index = [], []
@@ -475,6 +530,12 @@ def run(ctx):
                     if e1 != e2:
                         ctx.violation("pred:ordered-equals-inlined", case(g, order=order, datum=datum), impl=e1, model=e2,
                                       signature="C19:load_schema_ordered:encoding-differs-from-inlined")
+            for fn, order, got, want in obs["container"]:
+                ctx.count("pred:loaded-schema-serialises", (key, fn, tuple(order or ())), nontrivial=nt)
+                if got != want:
+                    ctx.violation("pred:loaded-schema-serialises", case(g, function=fn, order=order), impl=dict(writer_reader=got[0], json_dumps=got[1]),
+                                  model=dict(writer_reader=want[0], json_dumps=want[1]),
+                                  signature="C19:%s:%s" % (fn, "container-file-differs-or-fails" if got[0] != want[0] else "schema-not-serialisable"))
             for form, seq, k, name, r, expect, enc in obs["sequence"]:
                 ctx.count("pred:repeated-loads", (key, form, tuple(seq), k), nontrivial=nt)
                 if r != expect or (enc is not None and enc[1] != enc[2]):
